@@ -36,15 +36,37 @@ func InBubble(t *testing.T, f func()) (failure string) {
 	// (channels, timers, pipes). A goroutine waiting for a sync.Mutex that nobody will release is invisible to
 	// it: the bubble then neither ends nor advances. Runs take milliseconds of real time; after RealTimeGuard
 	// the run is declared stalled. The process must not execute further plans afterwards (Stalled).
-	guard := time.NewTimer(RealTimeGuard)
-	defer guard.Stop()
-	select {
-	case failure = <-done:
+	if QuietFor(RealTimeGuard, done, &failure) {
 		return failure
-	case <-guard.C:
-		Stalled = true
-		return fmt.Sprintf("bubble: deadlock (no progress within %v of real time: a goroutine waits for something that is never released, e.g. a mutex left locked)", RealTimeGuard)
 	}
+	Stalled = true
+	return fmt.Sprintf("bubble: deadlock (no progress within %v of real time: a goroutine waits for something that is never released, e.g. a mutex left locked)", RealTimeGuard)
+}
+
+// QuietFor waits for a value on done and stores it in *out (true), or gives up (false) after the process has
+// demonstrably been running for d without one. Time is counted in 100 ms naps that really took about 100 ms: while
+// the machine or the process is frozen (virtual machine snapshot, SIGSTOP, swap storm) no naps are counted, and a
+// nap that overslept resets the count - only a process that is being scheduled normally and still makes no progress
+// is declared stalled.
+func QuietFor(d time.Duration, done <-chan string, out *string) bool {
+	const nap = 100 * time.Millisecond
+	need := int(d / nap)
+	count := 0
+	for count < need {
+		t0 := time.Now()
+		select {
+		case v := <-done:
+			*out = v
+			return true
+		case <-time.After(nap):
+		}
+		if time.Since(t0) > 10*nap {
+			count = 0 // overslept: the process was not running normally
+			continue
+		}
+		count++
+	}
+	return false
 }
 
 // RealTimeGuard bounds the real time of one bubble.
